@@ -90,6 +90,7 @@ impl MessageRouter for NoRouter {
 // Broadcaster: records every package; the chain simulator judges validity/finality.
 #[derive(Clone, Debug)]
 pub struct Broadcast {
+	pub seq: u64,
 	pub txs: Vec<Transaction>,
 	pub kinds: Vec<String>,
 }
@@ -107,6 +108,7 @@ impl McBroadcaster {
 impl BroadcasterInterface for McBroadcaster {
 	fn broadcast_transactions(&self, txs: &[(&Transaction, TransactionType)]) {
 		let b = Broadcast {
+			seq: next_seq(),
 			txs: txs.iter().map(|(t, _)| (*t).clone()).collect(),
 			kinds: txs
 				.iter()
@@ -154,12 +156,23 @@ pub enum SigEv {
 }
 
 thread_local! {
-	pub static SIGLOG: RefCell<Vec<SigEv>> = RefCell::new(Vec::new());
+	pub static SIGLOG: RefCell<Vec<(u64, SigEv)>> = RefCell::new(Vec::new());
+	static SEQ: std::cell::Cell<u64> = std::cell::Cell::new(0);
+}
+/// Per-thread (= per-world) sequence number giving signer, persister and broadcaster records one
+/// chronological order.
+pub fn next_seq() -> u64 {
+	SEQ.with(|s| {
+		let v = s.get();
+		s.set(v + 1);
+		v
+	})
 }
 pub fn siglog_push(e: SigEv) {
-	SIGLOG.with(|l| l.borrow_mut().push(e));
+	let q = next_seq();
+	SIGLOG.with(|l| l.borrow_mut().push((q, e)));
 }
-pub fn siglog_take() -> Vec<SigEv> {
+pub fn siglog_take() -> Vec<(u64, SigEv)> {
 	SIGLOG.with(|l| std::mem::take(&mut *l.borrow_mut()))
 }
 
